@@ -574,6 +574,66 @@ pub fn icc_chain() -> DocSpec {
     finish_classic(b, catalog)
 }
 
+/// the rarely read corners of the catalog: a metadata stream whose /Length is indirect, two file
+/// specifications with filtered embedded-file streams under a two-level /EmbeddedFiles tree, a
+/// structure tree whose elements name the root and a page, a three-level outline with /Dest arrays,
+/// /A GoTo actions (direct, named and through a dictionary) and the catalog's /Dests dictionary
+pub fn catalog_misc() -> DocSpec {
+    let mut b = Builder::new();
+    let catalog = b.reserve();
+    let pages = b.reserve();
+    let page = b.reserve();
+    let meta_len = b.reserve();
+    let meta = b.reserve();
+    let meta_data = b"<x:xmpmeta/>".to_vec();
+    b.put(meta_len, Val::Int(meta_data.len() as i64));
+    b.objs.insert(meta, Body::Stream { dict: vec![("Type".into(), Val::name("Metadata")), ("Subtype".into(), Val::name("XML"))], data: meta_data, len_ref: Some(meta_len) });
+    let ef1 = b.add_stream(
+        vec![("Type".into(), Val::name("EmbeddedFile")), ("Subtype".into(), Val::name("text")), ("Filter".into(), Val::name("FlateDecode")), ("Params".into(), Val::dict(vec![("Size", Val::Int(5)), ("CheckSum", Val::Str(vec![1, 2, 3, 4]))]))],
+        zlib_stored(b"hello"),
+    );
+    let ef2 = b.add_stream(
+        vec![("Type".into(), Val::name("EmbeddedFile")), ("Filter".into(), Val::Arr(vec![Val::name("ASCIIHexDecode"), Val::name("FlateDecode")])), ("DecodeParms".into(), Val::Arr(vec![Val::Null, Val::dict(vec![("Predictor", Val::Int(12)), ("Columns", Val::Int(3))])]))],
+        ascii_hex(&zlib_stored(&[0u8, 1, 2, 3, 2, 4, 5, 6])),
+    );
+    let spec1 = b.add(Val::dict(vec![("Type", Val::name("Filespec")), ("F", Val::Str(b"a.txt".to_vec())), ("EF", Val::dict(vec![("F", Val::r(ef1)), ("UF", Val::r(ef1))]))]));
+    let spec2 = b.add(Val::dict(vec![("Type", Val::name("Filespec")), ("F", Val::Str(b"b.bin".to_vec())), ("EF", Val::dict(vec![("F", Val::r(ef2)), ("DOS", Val::r(ef1)), ("Mac", Val::r(ef2)), ("Unix", Val::r(ef2))]))]));
+    let ef_leaf = b.add(Val::dict(vec![("Limits", Val::Arr(vec![Val::Str(b"a".to_vec()), Val::Str(b"b".to_vec())])), ("Names", Val::Arr(vec![Val::Str(b"a".to_vec()), Val::r(spec1), Val::Str(b"b".to_vec()), Val::r(spec2)]))]));
+    let ef_root = b.add(Val::dict(vec![("Kids", Val::Arr(vec![Val::r(ef_leaf)]))]));
+    let names = b.add(Val::dict(vec![("EmbeddedFiles", Val::r(ef_root))]));
+    // structure tree
+    let st_root = b.reserve();
+    let se1 = b.add(Val::dict(vec![("Type", Val::name("StructElem")), ("S", Val::name("Document")), ("P", Val::r(st_root)), ("ID", Val::Str(b"e1".to_vec())), ("Pg", Val::r(page))]));
+    let se2 = b.reserve();
+    b.put(se2, Val::dict(vec![("Type", Val::name("StructElem")), ("S", Val::name("P")), ("P", Val::r(se1)), ("Pg", Val::r(page))]));
+    b.put(st_root, Val::dict(vec![("Type", Val::name("StructTreeRoot")), ("K", Val::Arr(vec![Val::r(se1), Val::r(se2)]))]));
+    // outlines: three levels, every kind of destination
+    let outlines = b.reserve();
+    let o1 = b.reserve();
+    let o2 = b.reserve();
+    let o3 = b.reserve();
+    let o4 = b.reserve();
+    let dest_dict = b.add(Val::dict(vec![("D", Val::Arr(vec![Val::r(page), Val::name("XYZ"), Val::Null, Val::Int(10), Val::Real(1.5)]))]));
+    b.put(o1, Val::dict(vec![("Title", Val::Str(b"1".to_vec())), ("Parent", Val::r(outlines)), ("Next", Val::r(o4)), ("First", Val::r(o2)), ("Last", Val::r(o2)), ("Count", Val::Int(2)), ("Dest", Val::Arr(vec![Val::r(page), Val::name("FitH"), Val::Int(100)])), ("C", Val::ints(&[1, 0, 0])), ("F", Val::Int(2))]));
+    b.put(o2, Val::dict(vec![("Title", Val::Str(b"1.1".to_vec())), ("Parent", Val::r(o1)), ("First", Val::r(o3)), ("Last", Val::r(o3)), ("Count", Val::Int(1)), ("A", Val::dict(vec![("S", Val::name("GoTo")), ("D", Val::Arr(vec![Val::r(page), Val::name("FitR"), Val::Int(0), Val::Int(0), Val::Int(10), Val::Int(10)]))]))]));
+    b.put(o3, Val::dict(vec![("Title", Val::Str(b"1.1.1".to_vec())), ("Parent", Val::r(o2)), ("A", Val::dict(vec![("S", Val::name("GoTo")), ("D", Val::Str(b"named".to_vec()))])), ("SE", Val::dict(vec![("S", Val::name("P"))]))]));
+    b.put(o4, Val::dict(vec![("Title", Val::Str(b"2".to_vec())), ("Parent", Val::r(outlines)), ("Prev", Val::r(o1)), ("Dest", Val::r(dest_dict)), ("A", Val::dict(vec![("S", Val::name("URI")), ("URI", Val::Str(b"http://x".to_vec()))]))]));
+    b.put(outlines, Val::dict(vec![("Type", Val::name("Outlines")), ("First", Val::r(o1)), ("Last", Val::r(o4)), ("Count", Val::Int(4))]));
+    let dests = b.add(Val::dict(vec![
+        ("named", Val::Arr(vec![Val::r(page), Val::name("FitV"), Val::Int(5)])),
+        ("viaDict", Val::r(dest_dict)),
+        ("fitb", Val::Arr(vec![Val::r(page), Val::name("FitBH"), Val::Int(7)])),
+        ("xyz", Val::Arr(vec![Val::r(page), Val::name("XYZ"), Val::Int(1), Val::Null, Val::Null])),
+    ]));
+    b.put(page, Val::dict(vec![("Type", Val::name("Page")), ("Parent", Val::r(pages)), ("MediaBox", rect(0, 0, 100, 100)), ("Resources", Val::dict(vec![])), ("Metadata", Val::r(meta)), ("StructParents", Val::Int(0))]));
+    b.put(pages, Val::dict(vec![("Type", Val::name("Pages")), ("Kids", Val::Arr(vec![Val::r(page)])), ("Count", Val::Int(1))]));
+    b.put(
+        catalog,
+        Val::dict(vec![("Type", Val::name("Catalog")), ("Pages", Val::r(pages)), ("Names", Val::r(names)), ("Outlines", Val::r(outlines)), ("Dests", Val::r(dests)), ("Metadata", Val::r(meta)), ("StructTreeRoot", Val::r(st_root))]),
+    );
+    finish_classic(b, catalog)
+}
+
 pub fn rich_all() -> DocSpec {
     let mut rng = Rng::new(7);
     families::rich(&mut rng, &families::RichOpts::all(), &Layout::classic())
@@ -599,6 +659,7 @@ pub fn all() -> Vec<(&'static str, DocSpec)> {
         ("dag_trees", dag_trees()),
         ("dag_misc", dag_misc()),
         ("icc_chain", icc_chain()),
+        ("catalog_misc", catalog_misc()),
         ("long_chain", long_chain()),
         ("rich", rich_all()),
     ]
